@@ -60,6 +60,50 @@ func gen(r *vu.Rng, i int) []string {
 	var known [][]string
 	kind := map[string]byte{} // guessed kinds ('d' / 'f'); only steers the distribution
 	nslots := 0
+	// Pattern family "truncate, then write beyond the new end": contents written earlier must not
+	// come back as the bytes of a hole (a hole reads as zeros). The old contents may survive in a
+	// reused buffer, so the hole is placed inside, at and beyond the previous length / capacity.
+	if r.Chance(1, 5) {
+		p := []string{names[r.Intn(3)]}
+		ps := "p:/" + p[0]
+		known = append(known, p)
+		kind[p[0]] = 'f'
+		ops = append(ops, fmt.Sprintf("open %s 2 c", ps))
+		w := nslots
+		nslots++
+		total := 0
+		for j := r.Range(1, 3); j > 0; j-- {
+			d := r.Bytes(r.Range(1, 24))
+			for i := range d {
+				d[i] |= 1 // never zero: a leaked byte is visible
+			}
+			total += len(d)
+			ops = append(ops, fmt.Sprintf("write %d %s", w, vu.Hex(d)))
+		}
+		if r.Chance(1, 4) { // shrink the position of the first handle
+			ops = append(ops, fmt.Sprintf("seek %d %d 0", w, r.Intn(total+1)))
+		}
+		ops = append(ops, fmt.Sprintf("open %s %d %s", ps, 1+r.Intn(2), []string{"t", "ct", "t", "et"}[r.Intn(4)]))
+		tr := nslots
+		nslots++
+		h := tr // the handle that writes after the truncation
+		if r.Chance(1, 3) {
+			h = w // the first handle still stands at its old offset
+		}
+		if h == tr || r.Chance(1, 2) {
+			off := r.Range(1, total+2)
+			if r.Chance(1, 4) {
+				off = r.Range(1, 2*total+8)
+			}
+			ops = append(ops, fmt.Sprintf("seek %d %d 0", h, off))
+		}
+		ops = append(ops, fmt.Sprintf("write %d %s", h, vu.Hex(r.Bytes(r.Range(1, 3)))))
+		if r.Chance(1, 3) { // a second hole further out
+			ops = append(ops, fmt.Sprintf("seek %d %d 1", h, r.Range(1, total+4)))
+			ops = append(ops, fmt.Sprintf("write %d %s", h, vu.Hex(r.Bytes(r.Range(1, 2)))))
+		}
+		ops = append(ops, fmt.Sprintf("seek %d 0 0", w), fmt.Sprintf("read %d %d", w, 3*total+40), "snap")
+	}
 	n := r.Range(4, 22)
 	for k := 0; k < n; k++ {
 		p := rpath(r, known)
@@ -131,7 +175,11 @@ func gen(r *vu.Rng, i int) []string {
 			if r.Chance(1, 20) {
 				wh = 5 + r.Intn(3)
 			}
-			ops = append(ops, fmt.Sprintf("seek %d %d %d", r.Intn(nslots), r.Range(-4, 9), wh))
+			off := r.Range(-4, 9)
+			if r.Chance(1, 5) {
+				off = r.Range(0, 40)
+			}
+			ops = append(ops, fmt.Sprintf("seek %d %d %d", r.Intn(nslots), off, wh))
 		case x < 76 && nslots > 0:
 			ops = append(ops, fmt.Sprintf("readdir %d %d", r.Intn(nslots), r.Range(-1, 2)))
 		case x < 80 && nslots > 0:
